@@ -198,3 +198,59 @@ def or_pattern_with_guard(pat):
     unguarded pattern matches; obligations are claimed only for classes that cannot match it)."""
     m = make_mask(pat)
     return '|' in m and re.search(r'\bif\b', m) is not None
+
+
+def split_or_guard_arms(sn: Snippet):
+    """R10: Verus rejects a match arm that has both a top-level or-pattern and a guard. `P1 | P2 if g => body` is split into
+    `P1 if g => body, P2 if g => body` (the same arm twice, one alternative each; or-pattern alternatives bind the same names,
+    a guard is evaluated per matching alternative, so the meaning is unchanged). Applied until no such arm is left."""
+    from .extract import split_match_arms
+    total = 0
+    for _ in range(50):
+        mask = make_mask(sn.text)
+        done = True
+        for m in re.finditer(r'\bmatch\b', mask):
+            i = m.end()
+            while i < len(mask) and mask[i] != '{':
+                if mask[i] in '([':
+                    i = match_close(mask, i)
+                if mask[i] == ';':
+                    break
+                i += 1
+            if i >= len(mask) or mask[i] != '{':
+                continue
+            ob = i
+            cb = match_close(mask, ob)
+            body = sn.text[ob:cb + 1]
+            try:
+                arms = split_match_arms(body)
+            except Exception:
+                continue
+            for (ps, pe, bs, be) in arms:
+                pat = body[ps:pe]
+                pm = make_mask(pat)
+                g = re.search(r'\bif\b', pm)
+                if not g:
+                    continue
+                alts = [a.strip() for a in split_top(pat[:g.start()], sep='|') if a.strip()]
+                if len(alts) < 2:
+                    continue
+                guard = pat[g.start():].strip()
+                arm_body = body[bs:be]
+                new = ''.join("%s %s => %s%s\n" % (a, guard, arm_body, '' if arm_body.rstrip().endswith('}') else ',') for a in alts)
+                # replace the arm (including its trailing comma if any)
+                end = be
+                k = end
+                while k < len(body) and body[k] in ' \t\n':
+                    k += 1
+                if k < len(body) and body[k] == ',':
+                    end = k + 1
+                sn.replace_range('R10', ob + ps, ob + end, new, "or-pattern + guard arm split into %d arms (same guard, same body)" % len(alts))
+                total += 1
+                done = False
+                break
+            if not done:
+                break
+        if done:
+            break
+    return total
